@@ -248,8 +248,23 @@ pub fn run_c20() {
     }
     rep.set("rule", "explicit-state BFS over all interleavings of {deliver TALKREQ i (two from one peer, one from another reusing an id), respond(i), drop(i), shutdown} on a real Discv5 with a scripted handler, once with unknown requesters and once with both requesters in the routing table (one with a record advertising another socket than its source); state = history re-executed on a fresh service; exhaustive (the graph is finite)");
     rep.assume("the scripted handler emulates the real one in one respect: it drops its receiver when the service tells it to exit");
-    for v in found {
+    // handler part: the response must also leave the node (real handlers, held request, own
+    // request to the requester lost and timed out meanwhile)
+    let (hst, hvio) = crate::hdrive::c20_part(rep.thorough());
+    rep.set("handler_level_states", hst.states);
+    rep.set("handler_level_executions", hst.executions);
+    for k in ["timer_steps_with_a_held_request", "responses_put_on_the_wire"] {
+        rep.set(&format!("handler_level_{k}"), hst.counters.get(k).copied().unwrap_or(0));
+    }
+    if !hst.exhaustive {
+        rep.set("exhaustive", false);
+        rep.set("cap", hst.cap.clone().unwrap_or_default());
+    }
+    for v in found.into_iter().chain(hvio.into_iter()) {
         rep.violation(v);
+    }
+    if hst.counters.get("timer_steps_with_a_held_request").copied().unwrap_or(0) == 0 {
+        rep.vacuous("C20 vacuous: no timer step with a held request in the handler-level worlds");
     }
     for k in ["talk_events", "respond_after_shutdown", "drop_after_shutdown"] {
         if stats.counters.get(k).copied().unwrap_or(0) == 0 {
@@ -617,8 +632,23 @@ pub fn run_c14() {
     if rep.samples.is_empty() {
         rep.sample(json!({"note":"no multi-packet answer in this run"}));
     }
+    // handler part of "every PING is answered": in the attacker worlds of C01 a PING enclosed in a
+    // valid handshake (peer's record verifiable or not) must reach the application
+    let thorough = rep.thorough();
+    let (ast, avio, _) = crate::attack::explore("C14", thorough, mc::budget(thorough, 20.0, 0.3), if thorough { 3 } else { 2 });
+    rep.set("handler_level_states", ast.states);
+    rep.set("handler_level_executions", ast.executions);
+    rep.set("handler_level_requests_in_genuine_handshakes_delivered", ast.counters.get("requests_in_genuine_handshakes_delivered").copied().unwrap_or(0));
+    if !ast.exhaustive {
+        rep.set("exhaustive", false);
+        rep.set("cap", ast.cap.clone().unwrap_or_default());
+    }
+    problems.extend(avio);
     for p in problems {
         rep.violation(p);
+    }
+    if ast.counters.get("requests_in_genuine_handshakes_delivered").copied().unwrap_or(0) == 0 {
+        rep.vacuous("C14 vacuous: no genuine handshake with an enclosed request in the handler-level worlds");
     }
     if tot.multi_packet == 0 || tot.capped == 0 || tot.max_wire < 1270 {
         rep.vacuous("C14 vacuous: no multi-packet / capped / large answers");
@@ -650,6 +680,9 @@ pub struct VCfg {
     pub voters: Vec<u8>,
     pub addrs: u8,
     pub with_fail: bool,
+    /// the application once fell behind: more events than the event channel holds were produced
+    /// before it drained the stream (events are lost then, but later ones must still arrive)
+    pub burst: bool,
     /// events replayed before the explored history (contested starting states)
     pub seed: Vec<VEv>,
 }
@@ -712,6 +745,26 @@ async fn run_c17_async(cfg: &VCfg, hist: &[VEv]) -> Outcome<VEv> {
     };
     let _ = absorb(&mut node, &mut pings, &voters);
     let _ = node.drain_events();
+    let mut burst_overflowed = false;
+    if cfg.burst {
+        // 130 TALK requests from a stranger while the application does not read its event stream
+        // (capacity 100, or 30 without discovery reports): some events are lost; afterwards the
+        // application catches up
+        let stranger = NodeAddress { socket_addr: util::v4(10, 9, 9, 9, 9000), node_id: util::node_id(&util::key(99)) };
+        for i in 0..130u8 {
+            let req = v::Request { id: v::RequestId(vec![0xB0, i]), body: v::RequestBody::Talk { protocol: b"burst".to_vec(), request: vec![i] } };
+            node.inject(HandlerOut::Request(stranger.clone(), Box::new(req))).await;
+        }
+        rt::settle().await;
+        let got = node.drain_events().len();
+        if got < 25 {
+            mc::machinery(&format!("C17 burst world: only {got} events arrived"));
+        }
+        if got < 130 {
+            burst_overflowed = true;
+        }
+        let _ = node.drain_handler_in();
+    }
     // reference: voter -> (address index, expiry)
     // one vote per voter and address family (a dual-stack peer observes us on both)
     let mut votes: HashMap<(usize, bool), (u8, std::time::Instant)> = HashMap::new();
@@ -771,6 +824,9 @@ async fn run_c17_async(cfg: &VCfg, hist: &[VEv]) -> Outcome<VEv> {
         };
         if changed4 || changed6 {
             *counters.entry("address_changes").or_insert(0) += 1;
+            if burst_overflowed {
+                *counters.entry("address_changes_after_event_overflow").or_insert(0) += 1;
+            }
             let new: SocketAddr = if changed4 { after.udp4_socket().map(Into::into) } else { after.udp6_socket().map(Into::into) }.unwrap_or_else(|| "0.0.0.0:0".parse().unwrap());
             // tallies of the most recent unexpired votes
             let mut tally: BTreeMap<u8, usize> = BTreeMap::new();
@@ -857,7 +913,7 @@ async fn run_c17_async(cfg: &VCfg, hist: &[VEv]) -> Outcome<VEv> {
 }
 
 pub fn debug_c17() {
-    let cfg = VCfg { dual: true, min: 2, voters: vec![0, 1, 0, 1], addrs: 3, with_fail: false, seed: vec![] };
+    let cfg = VCfg { dual: true, min: 2, voters: vec![0, 1, 0, 1], addrs: 3, with_fail: false, burst: false, seed: vec![] };
     let h = vec![VEv::Pong(0, 0), VEv::PingRound, VEv::Pong(1, 1), VEv::PingRound, VEv::Pong(1, 0), VEv::Pong(0, 1)];
     for n in 1..=h.len() {
         let o = rt::run(run_c17_async(&cfg, &h[..n]));
@@ -869,18 +925,19 @@ pub fn run_c17() {
     let mut rep = Report::new("C17", "model_checking");
     let thorough = rep.thorough();
     let mut cfgs = vec![
-        VCfg { dual: false, min: 2, voters: vec![0, 0, 0, 0], addrs: 2, with_fail: false, seed: vec![] },
-        VCfg { dual: false, min: 3, voters: vec![0, 0, 0, 0, 0], addrs: 2, with_fail: false, seed: vec![] },
-        VCfg { dual: false, min: 2, voters: vec![0, 1, 2, 0], addrs: 2, with_fail: true, seed: vec![] },
-        VCfg { dual: true, min: 2, voters: vec![0, 1, 0, 1], addrs: 3, with_fail: false, seed: vec![] },
+        VCfg { dual: false, min: 2, voters: vec![0, 0, 0, 0], addrs: 2, with_fail: false, burst: false, seed: vec![] },
+        VCfg { dual: false, min: 3, voters: vec![0, 0, 0, 0, 0], addrs: 2, with_fail: false, burst: false, seed: vec![] },
+        VCfg { dual: false, min: 2, voters: vec![0, 1, 2, 0], addrs: 2, with_fail: true, burst: false, seed: vec![] },
+        VCfg { dual: true, min: 2, voters: vec![0, 1, 0, 1], addrs: 3, with_fail: false, burst: false, seed: vec![] },
     ];
+    cfgs.push(VCfg { dual: false, min: 2, voters: vec![0, 0, 1], addrs: 2, with_fail: false, burst: true, seed: vec![] });
     // contested starting states: two addresses with 2:2 and 3:2 votes among five eligible voters
-    cfgs.push(VCfg { dual: false, min: 2, voters: vec![0, 0, 0, 0, 0], addrs: 3, with_fail: false, seed: vec![VEv::Pong(0, 0), VEv::Pong(1, 1), VEv::Pong(2, 0), VEv::Pong(3, 1)] });
-    cfgs.push(VCfg { dual: false, min: 3, voters: vec![0, 0, 0, 0, 0], addrs: 3, with_fail: false, seed: vec![VEv::Pong(0, 0), VEv::Pong(1, 1), VEv::Pong(2, 0), VEv::Pong(3, 1), VEv::Pong(4, 0), VEv::PingRound] });
+    cfgs.push(VCfg { dual: false, min: 2, voters: vec![0, 0, 0, 0, 0], addrs: 3, with_fail: false, burst: false, seed: vec![VEv::Pong(0, 0), VEv::Pong(1, 1), VEv::Pong(2, 0), VEv::Pong(3, 1)] });
+    cfgs.push(VCfg { dual: false, min: 3, voters: vec![0, 0, 0, 0, 0], addrs: 3, with_fail: false, burst: false, seed: vec![VEv::Pong(0, 0), VEv::Pong(1, 1), VEv::Pong(2, 0), VEv::Pong(3, 1), VEv::Pong(4, 0), VEv::PingRound] });
     if thorough {
-        cfgs.push(VCfg { dual: false, min: 2, voters: vec![0, 0, 0, 0, 0], addrs: 3, with_fail: false, seed: vec![] });
-        cfgs.push(VCfg { dual: false, min: 3, voters: vec![0, 1, 2, 0, 1], addrs: 2, with_fail: true, seed: vec![] });
-        cfgs.push(VCfg { dual: true, min: 3, voters: vec![0, 0, 1, 1, 2], addrs: 3, with_fail: true, seed: vec![] });
+        cfgs.push(VCfg { dual: false, min: 2, voters: vec![0, 0, 0, 0, 0], addrs: 3, with_fail: false, burst: false, seed: vec![] });
+        cfgs.push(VCfg { dual: false, min: 3, voters: vec![0, 1, 2, 0, 1], addrs: 2, with_fail: true, burst: false, seed: vec![] });
+        cfgs.push(VCfg { dual: true, min: 3, voters: vec![0, 0, 1, 1, 2], addrs: 3, with_fail: true, burst: false, seed: vec![] });
     }
     let depth = if thorough { 8 } else { 6 };
     let budget = mc::budget(thorough, 50.0, 1.0);
